@@ -62,6 +62,24 @@ CHECKS = {
          "All counter states are enumerated for zero/repeat; concurrent callers are explored with field-level scheduling points so a non-atomic increment yields a duplicate identifier or a reported race; caller-supplied identifiers must pass through unchanged.",
          "trusted: vrt scheduler+shims, race monitor, rewriter; more than 3 concurrent callers not covered; the long-outstanding wrap-around reuse is a recorded known finding",
          "DESIGN.md 3 C15"),
+ "C09": ("exhaustive enumeration of all scripts of <=3/4 consecutive connection-attempt outcomes (7 outcome kinds) x 4 (base,max) settings executed on the real ReconnectClient under exact virtual time, with every single (thorough: double) scheduling deviation; Disconnect / context cancellation at every instant of a time grid",
+         "For every script of dial errors, refused/absent CONNACKs, peer closes, protocol errors and keep-alive timeouts the real reconnect loop runs under a virtual clock: the wait before each redial is measured exactly and must respect the doubling lower bound (restarting after a success), no dial may happen while an earlier transport is open, every connection starts with one identical CONNECT, and after Disconnect / cancellation (issued at every instant of a grid, also +-1 ns around timer instants) no dial may start and Disconnect must return.",
+         "trusted: vrt scheduler+shims (virtual clock, timers, context), scripted per-attempt peer; scripts longer than the bound and wait settings other than the four listed are not covered",
+         "DESIGN.md 3 C09"),
+ "C13": ("exhaustive enumeration of ping-outcome sequences x (interval,timeout) settings x cancellation instants (free choice over a grid incl. +-1 ns around every tick and deadline) of the real KeepAlive loop against a scripted Client under exact virtual time (S<=1, P<=2), compared with a reference simulation of Go's ticker; plus fault enumeration (peer goes silent at any packet) on the real ReconnectClient",
+         "Ping start times must equal the reference ticker simulation exactly; KeepAlive may report ErrPingTimeout only when a ping deadline really passed before any cancellation, the context's error when the parent was cancelled, the ping's own error otherwise, and must keep running while answers arrive in time; a connection whose broker went silent must be closed within interval+timeout and replaced, a healthy one never.",
+         "trusted: vrt virtual clock / ticker model (capacity-1 channel, dropped ticks), scripted Client, broker model; early (slow-computation) timer firings are deliberately not used here because the oracle is about exact times",
+         "DESIGN.md 3 C13"),
+ "C16": ("exhaustive schedule exploration (P<=1/2, S<=1) of every combination of CONNACK outcome x ending event x Disconnect x order (sequenced and racing) on a real BaseClient with a per-connection monitor; fault enumeration on the real ReconnectClient with keep-alive, every BaseClient handed out by the dialer monitored, virtual time running several keep-alive intervals past each reconnect",
+         "The callback log, Err() and Done() of every connection are judged against the statement: Active at most once and only after an accepting CONNACK, Closed exactly once with the error Err() returns when the connection ended without Disconnect, Disconnected exactly once and never followed by Closed, Err() nil while healthy and after a graceful Disconnect, Done() closed iff ended; overlapping Disconnect/ending races accept both linearisations.",
+         "trusted: vrt scheduler+shims, scripted peer / broker model, the monitor's classification of races (an ending event inside the Disconnect call interval is treated as concurrent)",
+         "DESIGN.md 3 C16"),
+ "C17": ("stateless exhaustive DFS over fault placements (F<=2/3) and preemptions (P<=1/2) of the real reconnecting client with Handle called in every phase (before Connect, settled, immediately, during an outage, during the reconnect handshake, replaced later) while the broker model pushes messages right after every CONNACK",
+         "Every message the broker pushes on a connection whose inbound exchange completed must be handed exactly once to a handler that was registered when it was sent or later; never twice.",
+         RC_NOTE, "DESIGN.md 3 C17"),
+ "C18": ("stateless exhaustive DFS over placements of 'answer withheld, link stays up' faults (F<=2/3) on first transmissions and retransmissions of every request kind, with early timer firings (T<=1), on the real RetryClient with ResponseTimeout under virtual time",
+         "For QoS 1 publish, QoS 2 publish (either phase), subscribe and unsubscribe: whenever an answer is withheld the connection must be closed within ResponseTimeout, a RequestTimeoutError must reach OnError, and at quiescence every accepted request must be acknowledged on a later connection (never stalled).",
+         RC_NOTE, "DESIGN.md 3 C18"),
 }
 NA = {}
 
